@@ -123,7 +123,7 @@ func (x *Exec) callValue(st *State, fr *Frame, fnv Value, args []Value, dest ssa
 		if strings.HasPrefix(name, "$noop:") || strings.HasPrefix(name, "$opaque:") {
 			x.StubsHit[name]++
 			sig := fv.recv.(*types.Signature)
-			return deliver(x.zeroOf(sig.Results()))
+			return deliver(x.noopResults(sig, args))
 		}
 		return deliver(x.execBuiltin(st, fr, name, args, dest))
 	}
@@ -159,7 +159,7 @@ func (x *Exec) callValue(st *State, fr *Frame, fnv Value, args []Value, dest ssa
 	pp := fnPkgPath(fn)
 	if isNoopPkg(pp) {
 		x.StubsHit["noop:"+pp]++
-		return deliver(x.zeroOf(fn.Signature.Results()))
+		return deliver(x.noopResults(fn.Signature, args))
 	}
 	if len(fn.Blocks) == 0 {
 		x.buildFn(fn)
@@ -168,6 +168,43 @@ func (x *Exec) callValue(st *State, fr *Frame, fnv Value, args []Value, dest ssa
 		panic(x.unsupported("no body / intrinsic for " + name))
 	}
 	return x.pushCall(st, fn, args, fv.bindings, dest, discard)
+}
+
+// noopResults: zero results, except that a context.Context result is the
+// first context argument (tracer.Start and friends hand the context through).
+func (x *Exec) noopResults(sig *types.Signature, args []Value) Value {
+	res := sig.Results()
+	z := x.zeroOf(res)
+	isCtx := func(t types.Type) bool { return t.String() == "context.Context" }
+	var ctxArg Value
+	for _, a := range args {
+		if iv, ok := a.(IfaceV); ok && iv.typ != nil {
+			ts := iv.typ.String()
+			if strings.HasPrefix(ts, "*context.") || strings.HasPrefix(ts, "context.") {
+				ctxArg = a
+				break
+			}
+		}
+	}
+	if ctxArg == nil {
+		return z
+	}
+	switch res.Len() {
+	case 0:
+		return z
+	case 1:
+		if isCtx(res.At(0).Type()) {
+			return ctxArg
+		}
+		return z
+	}
+	tv := z.(TupleV)
+	for i := 0; i < res.Len(); i++ {
+		if isCtx(res.At(i).Type()) {
+			tv[i] = ctxArg
+		}
+	}
+	return tv
 }
 
 func (x *Exec) zeroOf(res *types.Tuple) Value {
